@@ -95,6 +95,13 @@ def gen_script(rng, nsteps):
     tag = [0]
 
     def new_leaf(j):
+        used = [st[1] for st in steps if st[0] == "leaf"]
+        if used and rng.random() < 0.25:
+            # the SAME operator object once more (same tag = same object, see `build`), on this or on another input
+            t = rng.choice(used)
+            steps.append(["leaf", t, j])
+            lin.append(lin[j] and t % 5 == 4)
+            return len(steps) - 1
         t = tag[0]
         tag[0] += 1
         if rng.random() < 0.2:
@@ -149,6 +156,10 @@ def gen_staggered(rng):
     nexttag = [0]
 
     def leaf(j, linear=False):
+        used = [st[1] for st in steps if st[0] == "leaf" and (st[1] % 5 == 4) == linear]
+        if used and rng.random() < 0.2:
+            steps.append(["leaf", rng.choice(used), j])       # the same operator object again (possibly on another input)
+            return len(steps) - 1
         t = nexttag[0]
         while (t % 5 == 4) != linear:
             t += 1
@@ -212,13 +223,14 @@ def gen_staggered(rng):
 def build(steps):
     E = env()
     ift = E["ift"]
-    ops = []
+    ops, leafobj = [], {}
     for s in steps:
         if s[0] == "var":
             ops.append(ift.FieldAdapter(E["dom"], s[1]))
         elif s[0] == "leaf":
-            lf = E["LL"](s[1]) if s[1] % 5 == 4 else E["NL"](s[1])
-            ops.append(lf @ ops[s[2]])
+            if s[1] not in leafobj:      # one operator object per tag: a tag used twice is the same object used twice
+                leafobj[s[1]] = E["LL"](s[1]) if s[1] % 5 == 4 else E["NL"](s[1])
+            ops.append(leafobj[s[1]] @ ops[s[2]])
         elif s[0] == "add":
             ops.append(ops[s[1]] + ops[s[2]])
         elif s[0] == "mul":
@@ -633,6 +645,9 @@ def run(ctx):
         res = oracle(c)
         if res:
             ctx.counterexample(c, *res)
+            ctx.stat("oracle:" + str(res[1].get("kind")))
+            if "error" not in r:
+                continue       # already reported; a broken optimised operator (e.g. a leaked key) cannot be evaluated further
         if "error" in r:
             ctx.stat("impl:" + r["error"])
             ctx.case(c, nontrivial=False)
